@@ -263,7 +263,10 @@ class BSplines():
             knots = np.array([self.knots[0], *self.knots, self.knots[-1]])
             values = np.empty(d+2)
 
-            for i in range(n):
+            # On a periodic domain the last d (wrapped) basis functions are
+            # clipped by the upper boundary; their integrals are only the
+            # mirror image of the first d ones if the knots are uniform
+            for i in range(n + d if self.periodic else n):
                 integ_deg = d+1
                 lbound = max(self.breaks[0], knots[i+1])
                 ubound = min(self.breaks[-1], knots[d+2+i])
@@ -284,10 +287,6 @@ class BSplines():
 
                 self._integrals[i] = (
                     knots[d+2+i] - knots[i+1])*inv_deg*(u - l)
-
-            if self.periodic:
-                for i in range(d):
-                    self._integrals[n+i] = self._integrals[d-i-1]
 
 # ===============================================================================
 
